@@ -180,4 +180,132 @@ theorem gen_no_deadlock (ts : List Thread)
     rw [hrest, hg]
     exact ⟨hb, hk⟩
 
+/-! ## 3. Double-checked registration (store.go: RegisterDB) -/
+
+/-- (T) the statement shape of `Store.RegisterDB` is the one the protocol model transcribes
+    (lock, scan→unlock+return, unlock, Open, lock, scan→unlock+Close+return, append, unlock). -/
+theorem gen_register_shape : Gen.Locks.registerShape = registerShape := by decide
+
+/-- **register_once.** `k ≥ 1` concurrent `RegisterDB(path)` calls, each with its own fresh instance, in ANY
+    interleaving: once all calls have returned exactly one instance is registered; every other call either
+    never opened its instance (`dEarly`) or opened and closed it again (`dDup`). -/
+theorem register_once (k : Nat) (hk : 1 ≤ k) (s : Register.St) (hr : Register.Reach true k s)
+    (hdone : ∀ i, i < k → Register.done (s.pc i)) :
+    ∃ r, r < k ∧ s.dbs = [r] ∧ s.pc r = .dReg ∧
+      ∀ j, j < k → j ≠ r → (s.pc j = .dEarly ∨ s.pc j = .dDup) := by
+  have inv := Register.inv_reach hr
+  have hne : s.dbs ≠ [] := by
+    rcases hdone 0 (by omega) with h | h | h
+    · exact inv.seen 0 (Or.inl h)
+    · exact inv.seen 0 (Or.inr (Or.inr h))
+    · intro hnil
+      have := (inv.reg 0).mpr h
+      rw [hnil] at this
+      cases this
+  have hlen := inv.atMost
+  match hd : s.dbs with
+  | [] => exact absurd hd hne
+  | [r] =>
+    have hreg : s.pc r = .dReg := (inv.reg r).mp (by rw [hd]; simp)
+    have hrk : r < k := by
+      apply Nat.lt_of_not_le
+      intro hle
+      have := inv.bound r hle
+      rw [hreg] at this
+      cases this
+    refine ⟨r, hrk, rfl, hreg, ?_⟩
+    intro j hj hne'
+    rcases hdone j hj with h | h | h
+    · exact Or.inl h
+    · exact Or.inr h
+    · have := (inv.reg j).mpr h
+      rw [hd] at this
+      simp at this
+      exact absurd this hne'
+  | _ :: _ :: _ => rw [hd] at hlen; simp at hlen
+
+/-- Non-vacuity: two calls, a complete run in which the second caller finds the first one's instance at its
+    second check and closes its own. -/
+example : ∃ s, Register.Reach true 2 s ∧ (∀ i, i < 2 → Register.done (s.pc i)) ∧ s.dbs = [0] := by
+  let u := Register.upd
+  let p0 : Nat → Register.PC := fun _ => .s0
+  refine ⟨{ mu := none, dbs := [] ++ [0],
+            pc := u (u (u (u (u (u (u (u (u (u p0 0 .s1) 0 .s2) 1 .s1) 1 .s2) 0 .s3) 1 .s3) 0 .s4) 0 .dReg) 1 .s4) 1 .s5 |> fun f => u f 1 .dDup }, ?_, ?_, rfl⟩
+  · refine .step (.step (.step (.step (.step (.step (.step (.step (.step (.step (.step .init
+      (.lock1 (i := 0) (by decide) rfl rfl)) (.none1 (i := 0) (by decide) (by simp [Register.upd]) rfl))
+      (.lock1 (i := 1) (by decide) (by simp [Register.upd, Register.init]) rfl)) (.none1 (i := 1) (by decide) (by simp [Register.upd]) rfl))
+      (.open_ (i := 0) (by decide) (by simp [Register.upd]))) (.open_ (i := 1) (by decide) (by simp [Register.upd])))
+      (.lock2 (i := 0) (by decide) (by simp [Register.upd]) rfl)) (.append (i := 0) (by decide) (by simp [Register.upd]) (Or.inr rfl)))
+      (.lock2 (i := 1) (by decide) (by simp [Register.upd]) rfl)) (.found2 (i := 1) (by decide) (by simp [Register.upd]) rfl (by simp)))
+      (.close (i := 1) (by decide) (by simp [Register.upd]))
+  · intro i hi
+    have : i = 0 ∨ i = 1 := by omega
+    rcases this with rfl | rfl <;> simp [Register.done, Register.upd, u]
+
+/-- Without the second check the protocol is wrong: two calls can both end up registered (what the
+    engine's `regstorm` operation looks for on the real code). -/
+theorem register_twice_without_second_check :
+    ∃ s, Register.Reach false 2 s ∧ (∀ i, i < 2 → Register.done (s.pc i)) ∧ s.dbs = [0, 1] := by
+  let u := Register.upd
+  let p0 : Nat → Register.PC := fun _ => .s0
+  refine ⟨{ mu := none, dbs := ([] ++ [0]) ++ [1],
+            pc := u (u (u (u (u (u (u (u (u (u p0 0 .s1) 0 .s2) 1 .s1) 1 .s2) 0 .s3) 1 .s3) 0 .s4) 0 .dReg) 1 .s4) 1 .dReg }, ?_, ?_, rfl⟩
+  · refine .step (.step (.step (.step (.step (.step (.step (.step (.step (.step .init
+      (.lock1 (i := 0) (by decide) rfl rfl)) (.none1 (i := 0) (by decide) (by simp [Register.upd]) rfl))
+      (.lock1 (i := 1) (by decide) (by simp [Register.upd, Register.init]) rfl)) (.none1 (i := 1) (by decide) (by simp [Register.upd]) rfl))
+      (.open_ (i := 0) (by decide) (by simp [Register.upd]))) (.open_ (i := 1) (by decide) (by simp [Register.upd])))
+      (.lock2 (i := 0) (by decide) (by simp [Register.upd]) rfl)) (.append (i := 0) (by decide) (by simp [Register.upd]) (Or.inl rfl)))
+      (.lock2 (i := 1) (by decide) (by simp [Register.upd]) rfl)) (.append (i := 1) (by decide) (by simp [Register.upd]) (Or.inl rfl))
+  · intro i hi
+    have : i = 0 ∨ i = 1 := by omega
+    rcases this with rfl | rfl <;> simp [Register.done, Register.upd, u]
+
+/-! ## 4. Close (db.go: DB.Close) -/
+
+set_option maxRecDepth 200000 in
+/-- **close_releases.** Every extracted path of `DB.Close` — one per outcome of every cancellable wait and try
+    inside it, i.e. under any cancellation of `ctx` — acquires the executor uncancellably, reaches
+    `releaseReadLock` (marker 3) and then clears `db/f/rtx` under `DB.mu` (marker 4), and holds nothing at the end. -/
+theorem close_releases :
+    Gen.Locks.closePaths ≠ [] ∧ ∀ p ∈ Gen.Locks.closePaths, closePathOK p = true := by
+  refine ⟨by decide, ?_⟩
+  have h : (Gen.Locks.closePaths.all closePathOK) = true := by decide
+  exact fun p hp => List.all_eq_true.mp h p hp
+
+/-- the predicate is not vacuous: honouring cancellation in Close's acquire gives a path it rejects. -/
+example : closePathOK [.wgWait 2, .tryFail 4 .W] = false := by decide
+example : closePathOK [.wgWait 2, .acq 4 .W false, .mark 3, .acq 8 .W false, .mark 4, .rel 8 .W, .rel 4 .W] = true := by decide
+
+/-! ## 5. Snapshot position hand-off (db.go: snapshotPosition / checkpointWithExecutor) -/
+
+set_option maxRecDepth 200000 in
+/-- **snapshot_pos_atomic (partial).** (i) on every path of `DB.Snapshot` the executor semaphore is held
+    without a gap from the position capture to `chkMu.RLock`; (ii) on every path of every operation and
+    monitor, the SQLite checkpoint (the only step that can restart the WAL) runs under the executor semaphore;
+    (iii) for the projections of all `Snapshot` paths against all `Checkpoint`/`Sync` paths on
+    {execSem, chkMu, markers}, exhaustive exploration of ALL interleavings of one snapshotter and one
+    checkpointer finds no checkpoint step between capture and `chkMu.RLock`.
+    Gap (why partial): the step from (i)+(ii) to N goroutines needs mutual exclusion of a weight-1 semaphore for
+    arbitrary N, which is established here only by the exhaustive 2-thread exploration (iii), and the
+    projection's soundness (other events do not affect the order of the kept ones) is argued, not proved. -/
+theorem snapshot_pos_atomic_partial :
+    (∀ p ∈ Gen.Locks.snapshotPaths, windowHeld [] false p = true) ∧
+    (∀ op ∈ Gen.Locks.lockPaths, marksUnder 2 4 [] op.2 = true) ∧
+    (∀ op ∈ Gen.Locks.monitorPaths, marksUnder 2 4 [] op.2.2 = true) ∧
+    (∀ a ∈ (Gen.Locks.snapshotPaths.map projHandoff).eraseDups,
+      ∀ b ∈ ((Gen.Locks.checkpointPaths ++ Gen.Locks.syncPaths).map projHandoff).eraseDups, handoffAtomic a b = true) := by
+  have h1 : (Gen.Locks.snapshotPaths.all fun p => windowHeld [] false p) = true := by decide
+  have h2 : (Gen.Locks.lockPaths.all fun op => marksUnder 2 4 [] op.2) = true := by decide
+  have h3 : (Gen.Locks.monitorPaths.all fun op => marksUnder 2 4 [] op.2.2) = true := by decide
+  have h4 : ((Gen.Locks.snapshotPaths.map projHandoff).eraseDups.all fun a =>
+      ((Gen.Locks.checkpointPaths ++ Gen.Locks.syncPaths).map projHandoff).eraseDups.all fun b => handoffAtomic a b) = true := by decide
+  refine ⟨fun p hp => List.all_eq_true.mp h1 p hp, fun p hp => List.all_eq_true.mp h2 p hp,
+    fun p hp => List.all_eq_true.mp h3 p hp, fun a ha b hb => List.all_eq_true.mp (List.all_eq_true.mp h4 a ha) b hb⟩
+
+/-- the exploration does find the violation when the capture happens outside the semaphore. -/
+example : handoffAtomic [.mark 1, .acq 4 .W false, .acq 7 .R false, .rel 4 .W, .rel 7 .R]
+    [.acq 4 .W false, .tryAcq 7 .W, .mark 2, .rel 7 .W, .rel 4 .W] = false := by decide
+example : handoffAtomic [.acq 4 .W false, .mark 1, .acq 7 .R false, .rel 4 .W, .rel 7 .R]
+    [.acq 4 .W false, .tryAcq 7 .W, .mark 2, .rel 7 .W, .rel 4 .W] = true := by decide
+
 end Litestream.C12
